@@ -100,28 +100,28 @@ def hmOps : CacheOps HM where
   lookup st cid s i := (st.get? (cid, s, i), st)
   store st cid s i v := st.insert (cid, s, i) v
 
-def handle (G : Grammar) (toks : List String) (st : HM) : String × HM :=
+def handle (G : Grammar) (toks : List String) (st : HM) (x : Abnf.Ext.XState) : String × HM × Abnf.Ext.XState :=
   match toks with
   | "lparse" :: r :: i :: cps =>
     let (res, st) := lparseC hmOps G fuel (nats cps) (.ref r.toNat!) i.toNat! st
-    (showRes res true, st)
+    (showRes res true, st, x)
   | "ends" :: r :: i :: cps =>
     let (res, st) := lparseC hmOps G fuel (nats cps) (.ref r.toNat!) i.toNat! st
-    (showRes res false, st)
+    (showRes res false, st, x)
   | "parse" :: r :: i :: cps =>
     let (res, st) := lparseC hmOps G fuel (nats cps) (.ref r.toNat!) i.toNat! st
-    (showPRes (pickWith id res), st)
+    (showPRes (pickWith id res), st, x)
   | "parseall" :: r :: cps =>
     let s := nats cps
     let (res, st) := lparseC hmOps G fuel s (.ref r.toNat!) 0 st
-    (showPRes (wholeOf s (pickWith id res)), st)
+    (showPRes (wholeOf s (pickWith id res)), st, x)
   -- cache-free engine (the definition the theorems speak about)
-  | "lparse0" :: r :: i :: cps => (showRes (lparse G fuel (nats cps) (.ref r.toNat!) i.toNat!) true, st)
-  | "ends0" :: r :: i :: cps => (showRes (lparse G fuel (nats cps) (.ref r.toNat!) i.toNat!) false, st)
-  | "parse0" :: r :: i :: cps => (showPRes (parse G fuel (nats cps) r.toNat! i.toNat!), st)
-  | _ => match Abnf.Ext.handle G fuel toks with
-    | some out => (out, st)
-    | none => ("bad-op", st)
+  | "lparse0" :: r :: i :: cps => (showRes (lparse G fuel (nats cps) (.ref r.toNat!) i.toNat!) true, st, x)
+  | "ends0" :: r :: i :: cps => (showRes (lparse G fuel (nats cps) (.ref r.toNat!) i.toNat!) false, st, x)
+  | "parse0" :: r :: i :: cps => (showPRes (parse G fuel (nats cps) r.toNat! i.toNat!), st, x)
+  | _ => match Abnf.Ext.handle G fuel toks x with
+    | some (out, x) => (out, st, x)
+    | none => ("bad-op", st, x)
 
 partial def readRules (h : IO.FS.Stream) : Nat → Array RuleInfo → IO (Option (Array RuleInfo))
   | 0, acc => pure (some acc)
@@ -133,26 +133,26 @@ partial def readRules (h : IO.FS.Stream) : Nat → Array RuleInfo → IO (Option
     | some ri => readRules h n (acc.push ri)
     | none => return none
 
-partial def loop (hin : IO.FS.Stream) (hout : IO.FS.Stream) (G : Grammar) (st : HM) : IO Unit := do
+partial def loop (hin : IO.FS.Stream) (hout : IO.FS.Stream) (G : Grammar) (st : HM) (x : Abnf.Ext.XState) : IO Unit := do
   let line ← hin.getLine
   if line.isEmpty then return ()
   let toks := (line.trimAscii.toString.splitOn " ").filter (· ≠ "")
   match toks with
-  | [] => loop hin hout G st
+  | [] => loop hin hout G st x
   | ["G", n] =>
     match ← readRules hin n.toNat! #[] with
-    | some G' => hout.putStrLn "grammar-ok"; loop hin hout G' {}
-    | none => hout.putStrLn "grammar-bad"; loop hin hout G st
-  | ["clear"] => hout.putStrLn "cleared"; loop hin hout G {}
+    | some G' => hout.putStrLn "grammar-ok"; loop hin hout G' {} x
+    | none => hout.putStrLn "grammar-bad"; loop hin hout G st x
+  | ["clear"] => hout.putStrLn "cleared"; loop hin hout G {} x
   | _ =>
-    let (out, st) := handle G toks st
+    let (out, st, x) := handle G toks st x
     hout.putStrLn out
-    loop hin hout G st
+    loop hin hout G st x
 
 end Drv
 
 def main : IO Unit := do
   let hin ← IO.getStdin
   let hout ← IO.getStdout
-  Drv.loop hin hout #[] {}
+  Drv.loop hin hout #[] {} {}
   hout.flush
